@@ -189,3 +189,4 @@ k("compute-called-directly-redundant", ["C14"], T + "aggregate.py", "        ret
   "Aggregate.required_keys IS self.transform.required_keys: the skipped check repeats the one __call__ just made")
 k("compute-called-directly-checked-members", ["C14"], T + "stack.py", "        results = [transform(input) for transform in self.transforms]", "        results = [transform._compute(input) for transform in self.transforms]",
   "Stack.__init__ rejects members whose required keys differ from its own")
+k("private-names-renamed", ALL, "*", "", "", "every private function, method and class of the package renamed at its definition and at every reference (names given by the property anchors excepted)", transform="rename-private")
